@@ -14,8 +14,9 @@ Record span_obs := {
 }.
 
 Inductive case :=
-(** TraceIDRatioBased(r1) and (r2) asked about one trace id *)
-| CRatio (r1 r2 : N) (t : bytes) (d1 d2 : bool)
+(** TraceIDRatioBased(r1) and (r2) asked about one trace id; t' is another trace id (different high
+    half, ignored low bit flipped or not), d1' the answer of r1 for it *)
+| CRatio (r1 r2 : N) (t : bytes) (d1 d2 : bool) (t' : bytes) (d1' : bool)
 (** one ratio, a sample of trace ids *)
 | CShare (r : N) (ts : list bytes) (ds : list bool)
 (** a program on a provider with sampler [s], an ID generator answering [gens]
@@ -202,9 +203,11 @@ Definition SHARE_TOL : Z := 48.   (* 48/256 *)
 
 Definition check_case (c : case) : list N :=
   match c with
-  | CRatio r1 r2 t d1 d2 =>
-      flag (Bool.eqb (ratio_sampled r1 t) d1 && Bool.eqb (ratio_sampled r2 t) d2) V_MISMATCH ++
-      flag (pair_ok r1 r2 d1 d2) V_SPECFAIL ++
+  | CRatio r1 r2 t d1 d2 t' d1' =>
+      flag (Bool.eqb (ratio_sampled r1 t) d1 && Bool.eqb (ratio_sampled r2 t) d2 &&
+            Bool.eqb (ratio_sampled r1 t') d1') V_MISMATCH ++
+      (* the decision is a function of the 63 bits [coord] of the trace id alone (c09_ratio_deterministic) *)
+      flag (pair_ok r1 r2 d1 d2 && implb (coord t =? coord t') (Bool.eqb d1 d1')) V_SPECFAIL ++
       flag (pair_ok r1 r2 (ratio_sampled r1 t) (ratio_sampled r2 t)) V_MODELSPEC
   | CShare r ts ds =>
       flag (list_eqb Bool.eqb (map (ratio_sampled r) ts) ds) V_MISMATCH ++
